@@ -262,7 +262,9 @@ def _run_path(m: Machine, ctx: Ctx, module, cls, fnode, contract, key, res, case
             ret_ty = m.return_type(fnode, module, contract)
         except Unsupported:
             ret_ty = None
-        if ret_ty is not None and ret_ty != TNone and isinstance(rv, V):
+        if ret_ty is not None and ret_ty != TNone and isinstance(rv, V) and not (ret_ty == sym.TAny and rv.ty != sym.TAny):
+            # (a value of a known static type returned where only `Any` / an unparametrised `dict` is declared keeps its
+            # type for the function's own postconditions: coercing it to an opaque handle would only forget facts)
             try:
                 rv = sym.coerce(rv, ret_ty)
             except Unsupported:
